@@ -316,13 +316,17 @@ int main(int argc, char** argv)
             }
         }
         bool ok = R.wait_done(*c, expected);
-        c->stop_inject.store(1, std::memory_order_release);
-        for (auto& th : ths) th.join();
         if (!ok)
         {
-            rc = 1;
-            break;
+            // tasks are lost: helper OS threads may spin for ever and the runtime cannot be shut
+            // down; everything observed so far has been printed and flushed
+            std::printf("SUMMARY mode=%s policy=%s threads=%d cases=%d tasks=%ld events=%ld chains=%ld monhits=%d rc=1\n",
+                mode.c_str(), policy.c_str(), threads, id, R.total_tasks, R.total_events, R.total_chains, R.mon_hits + 1);
+            std::fflush(stdout);
+            _exit(3);
         }
+        c->stop_inject.store(1, std::memory_order_release);
+        for (auto& th : ths) th.join();
         double t_run = std::chrono::duration<double>(std::chrono::steady_clock::now() - tc0).count();
         c->ids.clear();    // drop our references: the thread objects can be recycled
         settle(R);
